@@ -235,6 +235,8 @@ class Unsupported(Exception):
 class Translator:
     def __init__(self, program, tables):
         self.P, self.T = program, tables
+        self._attr_classes = {}
+        self._attr_kinds = {}
         self.reset()
 
     def reset(self):
@@ -249,6 +251,8 @@ class Translator:
         self.unclassified = set()
         self.nstmts = 0
         self.selfattrs = {}        # ns -> {attr: var}
+        self.lazy = set()          # attribute variables created by a read (not assigned by the code)
+        self.vclass = {}           # var -> ClassInfo of the odak class it was constructed from
         self.tuple_elts = {}       # var of an (immutable) tuple display -> [(var|None, kind)] of its items
 
     # ---- variables and emission
@@ -279,6 +283,8 @@ class Translator:
             self.emit('fresh', v)
         else:
             self.emit(mode, v, [src])
+            if mode == 'alias' and src in self.vclass:
+                self.vclass[v] = self.vclass[src]
         return v
 
     def block(self, f):
@@ -321,9 +327,10 @@ class Translator:
                 fr.self_ns = 'self'
         allnames = names + [p.arg for p in a.kwonlyargs]
         if top:
+            over = self.T.PARAM_KIND_OVERRIDES.get(fr.stack[0], {})
             for n in allnames:
                 d = defaults.get(n)
-                k = dk.get(n)
+                k = over.get(n, (dk.get(n),))[0]
                 if d is not None:
                     kd = self.const_kind(d)
                     if kd == 'scalar' and not (isinstance(d, ast.Constant) and d.value is None):
@@ -578,11 +585,17 @@ class Translator:
             ks = [self.kinds.get(v) for v in vs if v is not None]
             k = ks[0] if ks and all(x == ks[0] for x in ks) else None
             nv = self.var('phi:%s' % n, k)
+            self.phi_class(nv, vs)
             for (st, e), v in zip(branches, vs):
                 if v is not None:
                     st.append(('alias', nv, [v]))
             out[n] = nv
         fr.env = out
+
+    def phi_class(self, nv, vs):
+        cs = [self.vclass.get(v) for v in vs if v is not None]
+        if cs and cs[0] is not None and all(c is cs[0] for c in cs):
+            self.vclass[nv] = cs[0]
 
     def join_attrs(self, attrs0, branches):
         """the same for the self-attribute tables: branches = list of (stmts, attrs snapshot)"""
@@ -607,6 +620,7 @@ class Translator:
                 ks = [self.kinds.get(v) for v in vs if v is not None]
                 k = ks[0] if ks and all(x == ks[0] for x in ks) else None
                 nv = self.var('phi:%s.%s' % (ns, kx), k)
+                self.phi_class(nv, vs)
                 for (st, a), v in zip(branches, vs):
                     if v is not None:
                         st.append(('alias', nv, [v]))
@@ -653,6 +667,8 @@ class Translator:
         changed_at = [(ns, kx) for ns in at1 for kx in at1[ns] if at1[ns][kx] != at0.get(ns, {}).get(kx)]
         new_seed_keys = [k for k in self.seed_names if k not in saved[4]]
         kinds1 = {n: self.kinds.get(env1[n]) for n in changed}
+        classes1 = {n: self.vclass.get(env1[n]) for n in changed}
+        classes1_at = {(ns, kx): self.vclass.get(at1[ns][kx]) for ns in at1 for kx in at1[ns]}
         (self.nvar, self.names, self.kinds, self.seeds, self.seed_names, self.nstmts, self.notes, self.unresolved,
          self.unclassified, fr.ret, fr.ret_kind, fr.local_funcs) = saved
         # seeds discovered inside the loop must exist before it
@@ -664,6 +680,8 @@ class Translator:
             h = self.var('loop:%s' % n, kinds1[n] if v0 is None or self.kinds.get(v0) == kinds1[n] else None)
             if v0 is not None:
                 self.emit('alias', h, [v0])
+                if v0 in self.vclass and classes1.get(n) is self.vclass[v0]:
+                    self.vclass[h] = self.vclass[v0]
             heads[n] = h
             fr.env[n] = h
         for ns, kx in changed_at:
@@ -671,6 +689,8 @@ class Translator:
             h = self.var('loop:%s.%s' % (ns, kx), None)
             if v0 is not None:
                 self.emit('alias', h, [v0])
+                if v0 in self.vclass and classes1_at.get((ns, kx)) is self.vclass[v0]:
+                    self.vclass[h] = self.vclass[v0]
             heads_at[(ns, kx)] = h
             self.selfattrs.setdefault(ns, {})[kx] = h
         envh, ath = dict(fr.env), self.snap_attrs()
@@ -837,6 +857,12 @@ class Translator:
                 # state owned by the object itself: not an argument of the call (see the report: limits)
                 d[e.attr] = self.bind_new('%s.%s' % (fr.self_ns, e.attr), d.get('<object>'), None, 'load') if d.get('<object>') is not None \
                     else self.bind_new('%s.%s' % (fr.self_ns, e.attr), None, None)
+                self.lazy.add(d[e.attr])
+                ac = self.attr_class(fr.cls, e.attr) if fr.cls is not None else None
+                if ac is not None:
+                    self.vclass[d[e.attr]] = ac
+                if fr.cls is not None and self.attr_kind(fr.cls, e.attr) == 'scalar':
+                    self.kinds[d[e.attr]] = 'scalar'
             v = d[e.attr]
             return v, self.kinds.get(v)
         r = self.P.resolve_expr(fr.modname, e, fr.env)
@@ -851,6 +877,14 @@ class Translator:
             return None, None
         if e.attr in self.T.VIEW_ATTRS:
             return self.bind_new('%d:view' % fr.depth, b, 'array', 'alias'), 'array'
+        if b in self.vclass:
+            if self.attr_kind(self.vclass[b], e.attr) == 'scalar':
+                return None, 'scalar'
+            nv = self.bind_new('%d:attr' % fr.depth, b, None, 'load')
+            ac = self.attr_class(self.vclass[b], e.attr)
+            if ac is not None:
+                self.vclass[nv] = ac
+            return nv, None
         return self.bind_new('%d:attr' % fr.depth, b, None, 'load'), None
 
     def ex_Subscript(self, e, fr):
@@ -893,7 +927,7 @@ class Translator:
             return c, 'container'
         if ka == 'array' or kb == 'array':
             return None, 'array'
-        if ka is None and kb is None and (a is not None or b is not None) and isinstance(e.op, (ast.Add, ast.Mult)):
+        if ka is None and kb is None and (a is not None or b is not None) and isinstance(e.op, ast.Add):
             # unknown operands: could be lists
             c = self.bind_new('%d:binop' % fr.depth, None, None)
             ys = [x for x in (a, b) if x is not None and self.kinds.get(x) != 'array']
@@ -1034,6 +1068,13 @@ class Translator:
             mth = self.find_method(fr.cls, f.attr)
             if mth and f.attr not in self.selfattrs.get(fr.self_ns, {}):
                 return self.inline(mth[1], mth[0].modname, mth[0], fr.self_ns, args, kwargs, star, fr)
+            # self.<attribute>(...): the attribute holds a callable object (a module, a loss, a function)
+            cv, _ = self.ev(f, fr)
+            if cv is not None and cv in self.vclass:
+                cm = self.find_method(self.vclass[cv], '__call__') or self.find_method(self.vclass[cv], 'forward')
+                if cm is not None:
+                    return self.inline_on(cv, cm, args, kwargs, star, fr)
+            return self.unresolved_call('.' + f.attr, cv, allv, fr)
         # -- statically resolvable names
         r = self.P.resolve_expr(fr.modname, f, fr.env) if isinstance(f, (ast.Name, ast.Attribute)) else None
         if isinstance(f, ast.Name) and f.id in fr.env:
@@ -1051,9 +1092,106 @@ class Translator:
         # -- method call on a value / call of a callable value
         if isinstance(f, ast.Attribute):
             recv, rk = self.ev(f.value, fr)
+            if recv is not None and recv in self.vclass:
+                mth = self.find_method(self.vclass[recv], f.attr)
+                if mth is not None:
+                    return self.inline_on(recv, mth, args, kwargs, star, fr)
             return self.method_call(f.attr, recv, rk, args, kwargs, allv, fr, e)
+        if isinstance(f, ast.Name) and f.id in fr.env and fr.env[f.id] in self.vclass:
+            mth = self.find_method(self.vclass[fr.env[f.id]], '__call__') or self.find_method(self.vclass[fr.env[f.id]], 'forward')
+            if mth is not None:
+                return self.inline_on(fr.env[f.id], mth, args, kwargs, star, fr)
         cv, _ = self.ev(f, fr)
         return self.unresolved_call('<callable %s>' % (f.id if isinstance(f, ast.Name) else type(f).__name__), cv, allv, fr)
+
+    def attr_class(self, cls, attr):
+        """the odak class of self.<attr>, when every assignment `self.attr = ...` in the class (and its odak bases) is
+        `None` or a constructor call of one odak class"""
+        key = (cls.modname, cls.name)
+        tab = self._attr_classes.get(key)
+        if tab is None:
+            tab = {}
+            bad = set()
+            akind = {}
+            for fn in cls.methods.values():
+                pk = self.param_kinds(fn)
+                for n in ast.walk(fn):
+                    if isinstance(n, ast.Assign):
+                        for t in n.targets:
+                            for tt in (t.elts if isinstance(t, (ast.Tuple, ast.List)) else [t]):
+                                if isinstance(tt, ast.Attribute) and isinstance(tt.value, ast.Name) and tt.value.id == 'self':
+                                    v = n.value
+                                    k = None
+                                    if not isinstance(t, (ast.Tuple, ast.List)):
+                                        if self.const_kind(v) == 'scalar':
+                                            k = 'scalar'
+                                        elif isinstance(v, ast.Name) and pk.get(v.id) == 'scalar' and not self.rebound(fn, v.id):
+                                            k = 'scalar'
+                                    akind[tt.attr] = k if akind.get(tt.attr, k) == k else None
+                    elif isinstance(n, (ast.AugAssign, ast.AnnAssign)) and isinstance(n.target, ast.Attribute):
+                        akind[n.target.attr] = None
+            self._attr_kinds[key] = akind
+            for fn in cls.methods.values():
+                for n in ast.walk(fn):
+                    if isinstance(n, ast.Assign):
+                        for t in n.targets:
+                            for tt in (t.elts if isinstance(t, (ast.Tuple, ast.List)) else [t]):
+                                if isinstance(tt, ast.Attribute) and isinstance(tt.value, ast.Name) and tt.value.id == 'self':
+                                    v = n.value
+                                    if isinstance(v, ast.Constant) and v.value is None and not isinstance(t, (ast.Tuple, ast.List)):
+                                        continue
+                                    c = None
+                                    if isinstance(v, ast.Call) and isinstance(v.func, ast.Attribute) and v.func.attr in ('to', 'cuda', 'cpu') \
+                                            and ast.dump(v.func.value) == ast.dump(tt).replace('Store()', 'Load()'):
+                                        continue                      # self.a = self.a.to(device)
+                                    if isinstance(v, ast.Call) and not isinstance(t, (ast.Tuple, ast.List)):
+                                        r = self.P.resolve_expr(cls.modname, v.func)
+                                        if r and r[0] == 'class':
+                                            c = r[1]
+                                    if c is None or (tt.attr in tab and tab[tt.attr] is not c):
+                                        bad.add(tt.attr)
+                                    else:
+                                        tab[tt.attr] = c
+                    elif isinstance(n, (ast.AugAssign, ast.AnnAssign)) and isinstance(n.target, ast.Attribute):
+                        bad.add(n.target.attr)
+            for b in bad:
+                tab.pop(b, None)
+            self._attr_classes[key] = tab
+        return tab.get(attr)
+
+    def attr_kind(self, cls, attr):
+        self.attr_class(cls, attr)
+        return self._attr_kinds.get((cls.modname, cls.name), {}).get(attr)
+
+    def param_kinds(self, fn):
+        a = fn.args
+        pos = list(a.posonlyargs) + list(a.args)
+        out = dict(doc_kinds(fn))
+        defaults = dict(zip([p.arg for p in pos[len(pos) - len(a.defaults):]], a.defaults))
+        for p, d in zip(a.kwonlyargs, a.kw_defaults):
+            if d is not None:
+                defaults[p.arg] = d
+        for n, d in defaults.items():
+            if self.const_kind(d) == 'scalar' and not (isinstance(d, ast.Constant) and d.value is None) and out.get(n) is None:
+                out[n] = 'scalar'
+        return {p.arg: out.get(p.arg) for p in pos + list(a.kwonlyargs)}
+
+    def rebound(self, fn, name):
+        for n in ast.walk(fn):
+            if isinstance(n, ast.Name) and n.id == name and isinstance(n.ctx, ast.Store):
+                return True
+        return False
+
+    def inline_on(self, recv, mth, args, kwargs, star, fr):
+        """method of a receiver whose odak class is known: inlined with an attribute namespace of its own whose
+        attributes are read from the receiver object; attributes it assigns are stored back into the receiver"""
+        ns = 'recv%d<%s>' % (self.nvar, mth[0].name)
+        self.selfattrs[ns] = {'<object>': recv}
+        r = self.inline(mth[1], mth[0].modname, mth[0], ns, args, kwargs, star, fr)
+        ys = [v for kx, v in self.selfattrs.get(ns, {}).items() if kx != '<object>' and self.kinds.get(v) != 'scalar' and v not in self.lazy]
+        if ys:
+            self.emit('store', recv, ys)
+        return r
 
     def find_method(self, cls, name, seen=None):
         seen = seen or set()
@@ -1227,10 +1365,12 @@ class Translator:
             ys = [v for kx, v in self.selfattrs.get(ns, {}).items()]
             if ys:
                 self.emit('store', o, ys)
+            self.vclass[o] = cls
             return o, None
         o = self.bind_new(ns, None, None)
         if allv:
             self.emit('store', o, allv)
+        self.vclass[o] = cls
         return o, None
 
     def inline(self, fn, modname, cls, self_ns, args, kwargs, star, fr, closure=None):
